@@ -306,6 +306,25 @@ def build_driver(name="xvdrive", libs=("-ldl", "-lpthread"), extra=()):
     return target
 
 
+def build_exe(name, src, flags=(), libs=(), opt="-O1"):
+    """Stand-alone explorer executable that includes xsimd itself (C15, C18, C20 ...)."""
+    target = os.path.join(OBJ, name)
+    argv = [CXX, "-std=c++17", opt, "-I" + os.path.join(REPO, "include"), "-I" + os.path.join(VERIF, "engine"), "-I" + os.path.join(VERIF, "harness"),
+            "-DXSIMD_VERIF", '-DXSIMD_VERIF_HOOKS_HEADER="%s"' % os.path.join(VERIF, "harness", "xv_hooks.hpp")] + list(flags) + [src] + list(libs)
+    return target, build_object(target, argv, [src])
+
+
+def write_if_changed(path, text):
+    os.makedirs(os.path.dirname(path), exist_ok=True)
+    try:
+        if open(path).read() == text:
+            return
+    except OSError:
+        pass
+    with open(path, "w") as f:
+        f.write(text)
+
+
 # ------------------------------------------------------------------------------------------------
 def load_known():
     p = os.path.join(VERIF, "known_findings.json")
